@@ -353,7 +353,10 @@ def grammar_stream(rng):
             fl = rng.randrange(256)
             cmds.append(fl)
             if fl & 16:
-                cmds += varint(rng.choice([rng.randint(0, 8), rng.randint(0, 200), (1 << 62) + 5, (1 << 63) - 1]))
+                # strides whose product with order + 1 (1..3) wraps 64 bits to a small number
+                cmds += varint(rng.choice([rng.randint(0, 8), rng.randint(0, 200), (1 << 62) + 5, (1 << 63) - 1,
+                                           ((1 << 64) + rng.randint(0, 40)) // 3 + rng.randint(0, 1),
+                                           ((1 << 64) + 2) // 3, (1 << 62) + rng.randint(0, 3), (1 << 61) + 1]))
             cmds += varint(rng.choice([rng.randint(0, 40), rng.randint(0, 400)]))
     if rng.random() < 0.1:
         cmds = cmds[:rng.randint(0, len(cmds))]
